@@ -698,7 +698,7 @@ func objToArgD(o ugo.Object) argD {
 
 func TestCheck(t *testing.T) {
 	rec := ev.New("C06")
-	rec.Rule = "(a) programs from the scope-aware generator (Failing+Try+Closures+Calls+Params+Floats+Destruct+Consts+Recursion+Log) run with 0..5 arguments of every type (undefined, ints, strings, arrays, maps, errors, Go functions/objects that panic); (b) resource-edge templates (non-tail recursion to the 1024-frame limit, ~200 locals per frame so the 2048-slot value stack overflows first, wide array/map/call-argument/binary expressions whose total pushed slots are drawn from 2030..2070, placed plainly / in try / in catch / in finally / in every frame / behind an Invoker re-entry) plus a deterministic sweep of the target 2030..2070 per shape; (c) Go callbacks (*Function, ExCallerObject, NameCallerObject, plain callable, custom Object methods BinaryOp/IndexGet/IndexSet/String/Iterate/Next/Key/Value/Equal/IsFalsy/Call/TypeName, globals object, Invoker re-entry) that panic with string / error / runtime.Error / nil / custom values. Each: fresh VM SetRecover(true), Run under recover, probe script on the same VM, re-run. Non-trivial = the run raised >= 1 runtime error or Go panic (Run returned an error, or a catch block logged '@caught'); distinct by source+args+globals"
+	rec.Rule = "(a) programs from the scope-aware generator (Failing+Try+Closures+Calls+Params+Floats+Destruct+Consts+Recursion+Log, every catch block additionally logs '@caught') run with 0..5 arguments of every type (undefined, ints, uints, floats, chars, strings, bytes, bools, arrays, maps, errors, builtin functions, Go functions/ExCallers/objects that panic) and sometimes nil / non-indexable / array / sync-map / custom globals; (b) resource-edge text templates drawn by rapid: non-tail recursion with 0..2 params, 0..3 or 150..230 locals and 0..4 pending temporaries per frame (1 slot per frame reaches the 1024-frame limit first, the others overflow the 2048-slot value stack first), depth shallow/mid/at the frame limit/fitted to the stack/unbounded, at the bottom a wide array / map / nested call-argument list (script and Go callee) / binary expression / spread call sized so that the total pushed slots hit a target drawn from 2030..2070, optionally with the failing operation (throw, division by zero, Go panic, index, non-callable, object panic) as the LAST operand so that the error is raised with the stack nearly full; placed plainly / in try / try-finally / in catch / in finally (with and without a pending error) / nested try in catch / try around the top call / try-catch-finally in EVERY frame (rethrow, swallow, call, Go panic, throw from finally); started directly or through an Invoker re-entry (top, middle, bottom; Invoke, Acquire/Release, swallowing, panicking after, twice); plus a deterministic sweep target=2030..2070 over 47 fixed shapes (class sweep:* records whether the outcome flips inside the window); (c) Go-callback templates: *Function (Value/ValueEx, direct, via variable, spread), ExCallerObject, NameCallerObject, plain callable, custom Object methods BinaryOp/IndexGet/IndexSet/String/Iterate/Next/Key/Value/Equal/IsFalsy/Call/CanCall/CanIterate/TypeName, globals object IndexGet/IndexSet, Go objects passed as arguments, script failures, Invoker re-entry nested up to 2 levels; 13 panic kinds (string, error, *ugo.Error, Object, nil map write, index, nil deref, panic(nil), struct value, error whose Error() panics, slice bounds, type assertion, integer division) + returned errors; 13 placements (try/catch/finally variants, inside functions, loops, 3..300 deep recursion, with pending temporaries, closures in finally), 1..3 actions per script, half importing a source module named like the probe's. Oracle per case: fresh VM SetRecover(true); Run under the harness' recover (escape => signature from the Go stack); result must be (value,nil) or (nil,err) and a value must be one the template's single top-level return can produce; then on the SAME VM a probe that throws at top level must return exactly its error, the fixed probe (closures + try/finally + import) must return its known value, and the first bytecode re-run with equal fresh inputs must give the same outcome class (value / error Name). Non-trivial = the run raised >= 1 runtime error or Go panic (Run returned an error, or a catch block logged '@caught'); distinct by kind+source+args+globals"
 	rec.Assumptions = []string{
 		"stack overflow need not be catchable by the script's try (docs/error-handling.md): any error return is accepted",
 		"the re-run is compared by outcome class only (value / error Name); values and messages are C07's business",
